@@ -65,6 +65,88 @@ def c05_batches(tier):
     return bs
 
 
+# ----------------------------------------------------------------------------- C06
+def c06_batches(tier):
+    q = tier == "quick"
+    bs = []
+    for be in BACKENDS:
+        for var in ("optim", "debug"):
+            cnt = (260 if q else 8000) * (1 if var == "optim" else 0.35) / (1.5 if be == "nayuki-portable" else 1)
+            bs.append(B("conc-swarm-%s-%s" % (be, var), "conc", be, var, cnt, spec="swarm:16", specpool=4, nkeys=2, maxw=8, weight=30 if q else 300))
+        bs.append(B("conc-wide-%s-optim" % be, "conc", be, "optim", 12 if q else 400, spec="swarm:4", specpool=2, nkeys=1, maxw=64, maxops=2, w=64 if q else 48,
+                    phist=0.2, weight=30 if q else 300, det_count=2))
+    for spec in ("P128", "P80"):
+        bs.append(B("conc-%s-spqlios-fma-optim" % spec, "conc", "spqlios-fma", "optim", 4 if q else 60, spec=spec, nkeys=1, maxw=4, maxops=2, pchurn=0.3, ploader=0.0,
+                    weight=80 if q else 400, det_count=1, max_procs=4 if q else 8))
+        if not q:
+            for be in BACKENDS[1:]:
+                bs.append(B("conc-%s-%s-optim" % (spec, be), "conc", be, "optim", 12, spec=spec, nkeys=1, maxw=4, maxops=2, ploader=0.1, weight=300, det_count=1, max_procs=6))
+    return bs
+
+
+# ----------------------------------------------------------------------------- C04 / C08 / C09 / C15 (lower-level clients)
+def low_batches(tier, ops, name, cnt_q, cnt_t, with_gates=True, default_ops=None, limit_nayuki_debug=False):
+    q = tier == "quick"
+    bs = []
+    for be in BACKENDS:
+        for var in ("optim", "debug"):
+            slow = 1.0 if var == "optim" else 0.4
+            extra = {}
+            if limit_nayuki_debug and var == "debug" and be.startswith("nayuki"):
+                # known finding (C09): these builds abort on Bgbit >= 16 before any other oracle can run
+                extra["xBmax"] = 10
+            bs.append(B("%s-swarm-%s-%s" % (name, be, var), "low", be, var, (cnt_q if q else cnt_t) * slow, spec="swarm:12", specpool=4, nkeys=2, ops=ops,
+                        nops=6, weight=30 if q else 300, **extra))
+            if with_gates:
+                bs.append(B("gates-swarm-%s-%s" % (be, var), "gates", be, var, (60 if q else 1500) * slow, spec="swarm:32", specpool=8, nkeys=2, mode="table",
+                            stats=0, weight=15 if q else 150))
+    if default_ops:
+        for spec in ("P128", "P80"):
+            for be in (["spqlios-fma"] if q else BACKENDS):
+                bs.append(B("%s-%s-%s-optim" % (name, spec, be), "low", be, "optim", (8 if q else 120) / SPEED[be], spec=spec, nkeys=1, ops=default_ops, nops=4,
+                            weight=60 if q else 400, det_count=1, max_procs=4 if q else 8))
+                if with_gates:
+                    bs.append(B("gates-%s-%s-optim" % (spec, be), "gates", be, "optim", (10 if q else 200) / SPEED[be], spec=spec, nkeys=1, mode="table", stats=0,
+                                weight=60 if q else 400, det_count=1, max_procs=4 if q else 8))
+    return bs
+
+
+def c04_batches(tier):
+    return low_batches(tier, "boot,bre,extract", "sweep", 70, 2500, True, "boot,bre")
+
+
+def c04_extra(tier, batches, results, cov):
+    need = ["phat_0", "phat_N-1", "phat_N", "phat_2N-1"]
+    return {"boundary_probes": {k: cov["probes"].get(k, 0) for k in need + ["p_0", "p_N-1", "p_N", "p_2N-1", "modswitch_tie"]},
+            "boundary_probes_all_hit": all(cov["probes"].get(k, 0) > 0 for k in need)}
+
+
+def c08_batches(tier):
+    return low_batches(tier, "ks", "ks", 120, 5000, True, None) + [
+        B("gates-%s-spqlios-fma-optim" % spec, "gates", "spqlios-fma", "optim", 10 if tier == "quick" else 300, spec=spec, nkeys=1, mode="table", stats=0,
+          weight=60, det_count=1, max_procs=4) for spec in ("P128", "P80")]
+
+
+def c09_batches(tier):
+    return low_batches(tier, "extprod,muxrot,blindrot", "ext", 60, 2500, False, None)
+
+
+def c09_extra(tier, batches, results, cov):
+    mx = 0.0
+    for b in cov["per_batch"]:
+        mx = max(mx, b["stats"].get("extprod.maxdiff", 0.0))
+    return {"largest_fft_discrepancy_over_tolerance": mx, "probes_cmux_blindrot": {k: v for k, v in cov["probes"].items() if k.startswith(("cmux", "blindrot", "extprod"))}}
+
+
+def c15_batches(tier):
+    q = tier == "quick"
+    bs = low_batches(tier, "extprod,muxrot,blindrot,ks,boot,bre,extract", "calls", 50, 2000, True, "boot,bre", limit_nayuki_debug=True)
+    for be in BACKENDS:
+        bs.append(B("netlist-swarm-%s-optim" % be, "gates", be, "optim", 40 if q else 1000, spec="swarm:24", specpool=6, nkeys=2, mode="netlist", gates=16, pfault=0.2,
+                    stats=0, weight=15 if q else 150))
+    return bs
+
+
 # ----------------------------------------------------------------------------- C17
 def c17_batches(tier):
     q = tier == "quick"
@@ -139,6 +221,7 @@ RECIPES = {
     "C05": {
         "level": "exploration",
         "batches": c05_batches,
+        "oracles": ["C05.", "C06.dup"],
         "rule": "io: one run = a seeded sequence of 1-12 objects (15 exportable kinds; random / extreme / zero contents; noise parameters from a list "
                 "spanning 1e-12..0.5 incl. 2^-15, 2^-25, 7.18e-9) written into ONE stream on one transport with seeded write chunking, re-written on "
                 "the other transport, read back in order through a seeded short-read reader, re-exported; gates/netlist: circuit evaluated twice, "
@@ -152,6 +235,95 @@ RECIPES = {
         "level_note": "Default-set keys (113 MB) appear a few times per run of the check, small swarm keys thousands of times. Comparators are the "
                       "harness's own field-by-field code; per-row variance of key material is expected back as the common maximum, as the property states.",
         "assumptions": ["harness comparators enumerate every field of every public structure of the pinned headers"],
+    },
+    "C06": {
+        "level": "exploration",
+        "batches": c06_batches,
+        "oracles": ["C06."],
+        "rule": "one run = W in 1..64 simulated tasks (real pthreads, exactly one runnable at a time) evaluating seeded lists of gates / bootstrappings on "
+                "shared inputs with one shared cloud key into private outputs, under a seeded schedule (random walk with p in {1%,10%,30%,100%} or "
+                "PCT priorities, random subset of 14 yield-site classes: FFT transform windows, decomposition, external product, CMux, modulus "
+                "switch, key switch, gate linear combination, planner, mutex), optional histories on the same thread before the measured op (FFT "
+                "products of extreme polynomials, gate under another key, key generation, key import), thread churn (every op in a short-lived "
+                "child thread) and a loader thread that imports the key and exits. non-trivial = at least one preemption; distinct = hash of "
+                "(spec, W, op lists, context-switch sequence)",
+        "technique": "deterministic simulation: real threads parked and released one at a time by a seeded scheduler at ELF-interposed library calls; "
+                     "byte-for-byte refinement against a sequential reference; planner lock-discipline invariant; replayable explicit schedules",
+        "level_text": "Seeded search over schedules, thread counts, operation mixes and histories on all ten builds; every output ciphertext must be "
+                      "bit-identical to the sequential reference, shared key/inputs/generator must be untouched, and every FFTW planner call must be "
+                      "made under a mutex common to all planner callers. Preemption granularity is the interposed call.",
+        "level_note": "A race confined to straight-line code between two interposed calls cannot be scheduled (DESIGN.md section 9). Data-race freedom "
+                      "is decided through its observable consequence (divergence from the sequential reference under some schedule) and the lock "
+                      "discipline, not by a happens-before detector; the TSan stress batch (thorough tier) is auxiliary.",
+        "assumptions": ["thread_local state is per pthread (tasks are real threads, not fibres)", "floating-point FFT code is deterministic for equal inputs on one machine"],
+    },
+    "C04": {
+        "level": "exploration",
+        "batches": c04_batches,
+        "oracles": ["C04."],
+        "coverage_extra": c04_extra,
+        "rule": "low: one run = 6 seeded calls among {tfhe_bootstrap_FFT, tfhe_bootstrap_woKS_FFT, tfhe_bootstrap, tfhe_bootstrap_woKS} on trivial "
+                "samples sweeping rounded phases and both rounding edges, random masks with phases within 2^-10 of the sign boundaries, random "
+                "samples, random mu; {tfhe_blindRotateAndExtract(_FFT)} with a random test polynomial and exponent vectors containing 0 and "
+                "2N-1 (barb biased to 0, N-1, N, 2N-1); extraction at every index; gates: the same prediction at every bootstrap inside a "
+                "gate. non-trivial = every run; distinct = hash of the plan",
+        "technique": "deterministic simulation: seeded client workloads on the real bootstrap code, an omniscient observer predicting the rounded "
+                     "phase with independent 128-bit rounding at ELF-interposed seams and at direct calls",
+        "level_text": "Seeded exploration (narrow): the rounded phase p^ is predicted independently from the secret key and the result must "
+                      "be +mu for p^ in [0,N), -mu otherwise (ties in the rounding accepted either way), coefficient p of the anticyclic "
+                      "extension for arbitrary test polynomials, within the noise bound; all four variants; boundary probes counted.",
+        "level_note": "Decided on flowing and boundary-biased values only; the exhaustive part of the quantifier (all x) is outside this family. "
+                      "N is 1024 in every back-end. Noise bound: 3/64 on the default sets, 18 x the worst-case estimate on swarm sets.",
+        "assumptions": ["observer rounding (exact integer arithmetic) is the specification of the modulus switch"],
+    },
+    "C08": {
+        "level": "exploration",
+        "batches": c08_batches,
+        "oracles": ["C08."],
+        "rule": "low/ks: one run = 6 key-switching clients, each with a fresh pair of keys, dimensions in {1,2,3,7,8,9,15,16,17,33,64}, a digit "
+                "layout from a grid of 15 (t*basebit <= 31), noiseless or noisy key, 24 samples whose masks are random / rounding edges and "
+                "carry chains / extreme values / top-of-range wrap; gates: every key switch inside every gate. Oracle: exact identity "
+                "phase(result) = b - sum s_i*round(a_i) - sum noises of the rows actually used (mod 2^32). non-trivial = every run",
+        "technique": "deterministic simulation: seeded key-switch clients and gate circuits, exact integer identity computed by the observer from "
+                     "the secret keys and the actual noise of every key-switching row",
+        "level_text": "Seeded exploration (narrow) with an exact oracle: any deviation of one unit of 2^-32 in any explored key switch is a "
+                      "violation; wrap-around and carry probes are counted.",
+        "level_note": "Not the exhaustive 2^32 sweep per digit layout (outside this family). The mean-zero clause of the rounding is implied by "
+                      "round-to-nearest being checked exactly per coefficient.",
+        "assumptions": ["observer's round-to-nearest (ties up) is the specification of the digit extraction"],
+    },
+    "C09": {
+        "level": "exploration",
+        "batches": c09_batches,
+        "oracles": ["C09."],
+        "coverage_extra": c09_extra,
+        "rule": "one run = 6 calls among tGswExternProduct / tGswExternMulToTLwe / tGswFFTExternMulToTLwe (m in {0,1,-1,X^j,X^(N-1),small-norm}, "
+                "TLWE input random / extreme / zero), tfhe_MuxRotate(_FFT) (exponent biased to 0 and 2N-1), tfhe_blindRotate(_FFT) (exponent "
+                "vectors with 0, 2N-1, N, N-1 entries) with (l,Bgbit) from a grid of 14 incl. l=1 and l*Bgbit=32, k in {1,2}, noiseless and "
+                "noisy rows. non-trivial = every run",
+        "technique": "deterministic simulation: seeded external-product clients; the observer predicts the output phase from its own gadget digits "
+                     "and the actual noise of every TGSW row, compared up to the calibrated FFT rounding tolerance",
+        "level_text": "Seeded exploration (narrow): phase(out) is compared with m*phase(truncated input) + sum digits*row-noise on 9 coefficients per "
+                      "call; CMux against ACC + BK*((X^a-1)ACC); blind rotation against X^(sum a_i s_i)*phase within the analytic bound; FFT image "
+                      "of every TGSW sample within 2 units of the coefficient-domain sample.",
+        "level_note": "Both product variants use floating-point FFT products in this library, so equality is up to a tolerance of "
+                      "20*sqrt(kpl*(1+kN/2)) units (largest discrepancy seen is recorded); errors of interest are > 2^20 units.",
+        "assumptions": ["FFT rounding stays within the calibrated tolerance on the unchanged tree (C10 is not decided here)"],
+    },
+    "C15": {
+        "level": "exploration",
+        "batches": c15_batches,
+        "oracles": ["C15."],
+        "rule": "every library call of the scenarios gates (14 gates, 5 aliasing patterns: result=a, =b, =c, a=b, all equal) and low (external "
+                "products, CMux, blind rotation, key switch, 4 bootstrap variants, blind-rotate-and-extract, extraction) is bracketed by "
+                "snapshots (64-bit hashes) of every input argument, the cloud key, the parameters and the generator state, plus the "
+                "entropy/time watchdog; aliased gate calls must give the bytes of the non-aliased call. non-trivial = every run",
+        "technique": "deterministic simulation: history monitors (byte snapshots before/after every API call, generator operator<< state, interposed "
+                     "entropy/time functions) over seeded client workloads, aliasing as an injected legal fault",
+        "level_text": "Seeded exploration over calls, parameter grids (incl. l=1, k=2, l*Bgbit=32) and aliasing patterns on all ten builds.",
+        "level_note": "Snapshots compare state after the call (the decomposition's transient offset on its const input is allowed). Whole cloud keys "
+                      "are hashed at every call on swarm sets and at the last call of a run on default sets.",
+        "assumptions": ["64-bit hash collisions are negligible"],
     },
     "C17": {
         "level": "exploration",
@@ -191,6 +363,7 @@ RECIPES = {
     "C01": {
         "level": "exploration",
         "batches": c01_batches,
+        "oracles": ["C01.", "C04."],
         "rule": "one run = one seeded gate table: gate g, all 2^arity input tuples, input provenance in {fresh, constant, bootstrapped, "
                 "NOT-of-fresh, mixed}, admissible phase fault per input in {none, +1/32, -1/32, towards the decision boundary, uniform}, "
                 "optional wire trip and aliasing; non-trivial = at least one fault fired (F-noise/F-chunk/F-short) or an input at the "
